@@ -5,7 +5,7 @@ from hypothesis import strategies as st
 
 from .. import hist, wire
 from ..engine import ok, require
-from ..simkit import ADDRS, MCAST, ServerRec, Sim, cfg, decode_sent_sd, hdr, install_random, make_sd, sd, timings
+from ..simkit import ADDRS, MCAST, HarnessError, ServerRec, Sim, cfg, decode_sent_sd, hdr, install_random, make_sd, sd, timings
 from ..vloop import RES
 
 PID = "C15"
@@ -141,6 +141,8 @@ def run_case(case):
         require(not sim.loop.errors, "C15.loop-error", lambda: str(sim.loop.errors[:2]))
         require(not sim.loop.task_errors(), "C15.loop-error", lambda: str(sim.loop.task_errors()[:2]))
 
+        if not queued and prot.transport.sent:
+            raise HarnessError("entries were transmitted but the wrapped ServiceAnnouncer.queue_send was never called: the observation point of this check is gone")
         # ---- what left the transport
         per_dest_sent = {}
         ndatagrams = 0
